@@ -1538,6 +1538,34 @@ pub(crate) fn gen_history(rng: &mut Rng, focus: &str, thorough: bool, page: usiz
         }
     }
     if focus == "c11" {
+        // a healthy database passes check_integrity() with Ok(true): in particular right after a
+        // transaction that had grown the file was rolled back (the stored layout then lags the file
+        // length), whatever kind of commit the served one was
+        for _ in 0..rng.range(1, 2) {
+            let strong = rng.below(3);
+            let mut block = vec![Step::Txn(TxnSpec {
+                durability: Durability::Immediate,
+                two_phase: strong == 1,
+                quick_repair: strong == 2,
+                sp_ops: vec![],
+                ops: if rng.chance(1, 2) { vec![] } else { gen_ops(rng, page, 2) },
+                end: End::Commit,
+            })];
+            block.push(Step::Txn(TxnSpec {
+                durability: Durability::Immediate,
+                two_phase: false,
+                quick_repair: false,
+                sp_ops: vec![],
+                ops: vec![Op::Bulk(0, 5000, rng.range(300, 700), page + 20), Op::Bulk(1, 6000, 200, page / 2)],
+                end: if rng.chance(1, 2) { End::Abort } else { End::Drop },
+            }));
+            block.push(Step::CheckIntegrity);
+            block.push(Step::CheckIntegrity);
+            let at = rng.below(steps.len() as u64 + 1) as usize;
+            let tail = steps.split_off(at);
+            steps.extend(block);
+            steps.extend(tail);
+        }
         // a leak left by a caught panic must be reclaimed by the next open whatever happens in
         // between: other transactions rolled back or committed (also with quick repair, which saves
         // an allocator snapshot), clean close or crash
